@@ -62,7 +62,7 @@ func c02Program(run *common.Run, idx int, store string, universe []string) {
 	pool := append([]string(nil), universe...)
 	common.Shuffle(r, pool)
 	o := &progOpts{Buckets: []string{"vb1", "vb2"}, Names: pool[:6], FileRules: store == "file", MD5Pct: 45, BigPerMille: 12,
-		W: map[string]int{"upload": 40, "overwrite": 22, "delete": 22, "delete_absent": 6, "patch_full": 5, "noop": 4}}
+		W: map[string]int{"upload": 40, "overwrite": 22, "delete": 22, "delete_absent": 6, "patch_full": 5, "bucket_cycle": 3, "noop": 4}}
 	for _, b := range o.Buckets {
 		if msg := e.createBucket(b); msg != "" {
 			fail(msg)
